@@ -40,6 +40,12 @@ def _code_job(name):
     return None
 
 
+def _mol_job(name):
+    """canonical stereo SMILES of a residue name converted alone (what the tree holds for it before linkages set anomers)"""
+    kind, smi = real.smiles_of(name)
+    return chem.canon(smi) if kind == "ok" and smi else None
+
+
 def code_of(name):
     """sugar code (the SAC / COUNT token) of a residue name of the generated vocabulary"""
     if CODES.get(name):
@@ -115,6 +121,19 @@ def run(rep, tier, driver):
         t = gen.T(s.split(")")[-1], [({"anomer": s.split("(")[1][0], "cpos": int(s.split("(")[1][1]), "ppos": int(s.split("-")[1][0])}, gen.T(s.split("(")[0]))])
         queries = [(q, dict(m, **{w: True})) for w in ("match_nodes", "match_leaves", "match_root") for m in modes]
         cases.append((s, queries, t))
+    # residues that differ from the library sugar only by a series prefix or a bare epimer token (nothing the reactor writes into the
+    # residue's stored text): the strict count must still tell them apart from the plain sugar
+    from props.c01 import parse_full
+    for s0, qs0 in [("L-Gal(a1-3)[Fuc(a1-2)]Gal(b1-4)GlcNAc", ["L-Gal", "Gal", "D-Gal", "Fuc", "D-Fuc", "L-Fuc", "GlcNAc"]),
+                    ("D-Fuc(a1-2)Gal(b1-4)Glc", ["D-Fuc", "Fuc", "Gal", "Glc"]), ("L-Glc(a1-4)Glc(a1-4)L-Glc", ["L-Glc", "Glc", "D-Glc"]),
+                    ("Gal4e(b1-4)Glc", ["Gal4e", "Gal", "Glc"]), ("L-Man(a1-3)[Man(a1-6)]Man", ["L-Man", "Man"]), ("D-Rha(a1-2)Rha(a1-3)L-Rha", ["D-Rha", "Rha", "L-Rha"]),
+                    ("L-Xyl(b1-4)Xyl(b1-4)Glc", ["L-Xyl", "Xyl"]), ("Glc3e(a1-4)All", ["Glc3e", "All", "Glc"])]:
+        try:
+            t0 = parse_full(s0)
+        except Exception:
+            continue
+        queries = [(q, dict(m, **{w_: True})) for q in qs0 for w_ in ("match_nodes", "match_leaves", "match_root") for m in modes]
+        cases.append((s0, queries, t0))
     rep.rule = ("random well-formed glycans; summary() against the written tree (residue count, root, leaves, depth, type histogram) and against RDKit on "
                 "get_smiles (formula, atoms, bonds, rings); count() for single-residue queries drawn from the tree and the vocabulary x {nodes, leaves, root} "
                 "x {basic, some, every}; the glycan itself and its parent-child sub-chains as queries with and without edge matching; save_dot parsed "
@@ -122,6 +141,7 @@ def run(rep, tier, driver):
     outs = pmap(_job, [(s, q) for s, q, _ in cases], chunk=1)
     allnames = sorted({nd.name for _, _, t in cases for nd in t.nodes()} | {q for _, qs, _ in cases for q, _ in qs if "(" not in q})
     CODES.update({k: v for k, v in zip(allnames, pmap(_code_job, allnames, chunk=16)) if v})
+    MOLS = dict(zip(allnames, pmap(_mol_job, allnames, chunk=8)))
     # the Model of summary()["leaves"] (Plan.outLeaves on the Model front-end's tree; C16_leaves): node ids without outgoing edge
     fronts = {}
     if driver is not None:
@@ -205,7 +225,22 @@ def run(rep, tier, driver):
                         rep.violation("input", {"iupac": s, "query": q, "where": where}, {"basic": b, "some": so, "every": ev}, "some <= basic",
                                       key=KNOWN_SOME if (q in ("Hep", "Hex", "Oct", "Pen") or two) else "mono-some:%s:%s" % (s, q))
                     if ev > so:
-                        rep.violation("input", {"iupac": s, "query": q, "where": where}, {"basic": b, "some": so, "every": ev}, "every <= some <= basic", key=KNOWN_EVERY)
+                        # the known mechanism: a residue spelled differently from the query but the same molecule is an 'every' match and
+                        # not a 'some' match; anything else is reported under its own key
+                        pool_ = names if where == "match_nodes" else ([nd.name for nd in t.nodes() if not nd.kids] if where == "match_leaves" else [t.name])
+                        explained = MOLS.get(q) is not None and any(nm != q and MOLS.get(nm) == MOLS.get(q) for nm in pool_)
+                        rep.violation("input", {"iupac": s, "query": q, "where": where}, {"basic": b, "some": so, "every": ev}, "every <= some <= basic",
+                                      key=KNOWN_EVERY if explained else "every>some:%s:%s:%s" % (s, q, where))
+            if single and fl.get("match_all_fg") and isinstance(c, int) and MOLS.get(q) is not None:
+                # strict matching = the same molecule: the count is the number of residues (of the pool) that are the query's molecule
+                where = [k for k in ("match_nodes", "match_leaves", "match_root") if fl.get(k)][0]
+                pool_ = names if where == "match_nodes" else ([nd.name for nd in t.nodes() if not nd.kids] if where == "match_leaves" else [t.name])
+                if all(MOLS.get(nm) is not None for nm in pool_):
+                    wante = sum(1 for nm in pool_ if MOLS[nm] == MOLS[q])
+                    rep.count("count-every-spec")
+                    if c != wante:
+                        rep.violation("input", {"iupac": s, "query": q, "flags": fl}, {"count": c}, {"count": wante, "note": "residues that are the same molecule as the query"},
+                                      key="every-count:%s:%s:%s" % (s, q, where))
             if q == s and fl.get("match_nodes") and isinstance(c, int) and c < 1:
                 rep.violation("input", {"iupac": s, "query": q, "flags": fl}, {"count": c}, ">= 1 (every glycan contains itself)", key="self:%s:%s" % (s, sorted(fl)))
 
